@@ -16,7 +16,7 @@ ASSUMPTIONS = [
     "the strict reader (C02's specification) judges the repaired file; the document an edit script denotes is computed by the generator on the object model (pdfgen), independently of fix-qdf and of its model",
     "QDF files above 150 kB are not used (the extracted list-based reader and model are slow on them)",
     "edit scripts: byte insertions/deletions inside stream data, key insertion/change/removal in top-level dictionaries (also of object-stream members), comments/blank lines, stale numbers in the parts fix-qdf regenerates, appended objects; renumbering edits (deleting objects) are outside the manual's contract and not generated",
-    "known findings C17-F1/F2 (marker text inside data) are re-observed on dedicated inputs; F3 (--newline-before-endstream with object streams) and F4 (--preserve-unreferenced keeps original object streams) when the option sample contains them; files of these classes are not used as bases for edit scripts",
+    "known finding C17-F1 (an `endstream` line inside stream data) is re-observed on a dedicated input; the inputs of the repaired C17-F2 (marker text inside a string or a longer name, fix e1b84020) stay in the run as regression inputs; F3 (--newline-before-endstream with object streams) and F4 (--preserve-unreferenced keeps original object streams) when the option sample contains them; files of these classes are not used as bases for edit scripts",
 ]
 
 MAXSIZE = 150000
@@ -502,9 +502,9 @@ def breaking_edit(rng, lines):
         i = rng.choice(hdrs); v = rng.choice([0, 1, 7, 2147483647, 2147483648, 99999999999999999999, int(HDR.match(ls[i]).group(1)) + 1])
         ls[i] = rng.choice([b"", b"0", b"00"]) + b"%d 0 obj\n" % v; what = "object header on line %d becomes %r" % (i + 1, ls[i])
     elif k == 3 and hdrs:
-        i = rng.choice(hdrs) + 1; what = "insert /Type /XRef line at %d" % (i + 1); ls.insert(min(i + rng.randint(0, 2), len(ls)), rng.choice([b"  /Type /XRef\n", b"/Type /XRef", b"  /Note (/Type /XRef)\n"]))
+        i = rng.choice(hdrs) + 1; what = "insert /Type /XRef line at %d" % (i + 1); ls.insert(min(i + rng.randint(0, 2), len(ls)), rng.choice([b"  /Type /XRef\n", b"/Type /XRef", b"  /Note (/Type /XRef)\n", b"\t /Type /XRef \t\r\n", b"/Type /XRef\r\n", b"  /Type /XRefX\n", b"x /Type /XRef\n", b" \t\n"]))
     elif k == 4 and hdrs:
-        i = rng.choice(hdrs) + 1; what = "insert /Type /ObjStm line at %d" % (i + 1); ls.insert(min(i + rng.randint(0, 2), len(ls)), rng.choice([b"  /Type /ObjStm\n", b"  /X (/Type /ObjStm) /Extends 12 0 R /Extends 4 0 R\n"]))
+        i = rng.choice(hdrs) + 1; what = "insert /Type /ObjStm line at %d" % (i + 1); ls.insert(min(i + rng.randint(0, 2), len(ls)), rng.choice([b"  /Type /ObjStm\n", b"  /X (/Type /ObjStm) /Extends 12 0 R /Extends 4 0 R\n", b"/Type /ObjStm \r\n", b"\t/Type /ObjStm", b"  /Type /ObjStmX\n"]))
     elif k == 5:
         data = b"".join(ls); cut = rng.randrange(len(data) + 1); what = "truncate at byte %d" % cut; return split_lines(data[:cut]) or [b""], what
     elif k == 6:
@@ -570,7 +570,7 @@ def special_docs(rng):
 
 
 def finding_docs():
-    """inputs of the two known findings"""
+    """input of known finding C17-F1 and the inputs of the repaired C17-F2 (regression)"""
     out = []
     d = pdfgen.page_doc(1, marker="F")
     d.objects[1][b"X"] = d.add(Stream({}, b"abc\nendstream\ndef\n"))
